@@ -159,6 +159,7 @@ partial def event (sm : Sim) (ev : String) (nested : Bool := false) : Sim :=
       sm.op (.wr (k.toNat?.getD 0) evs)
     | ["block", k, b] => (sm.op (.block (k.toNat?.getD 0) (b == "1"))).settle
     | ["sethbh", k, v] => sm.op (.sethbh (k.toNat?.getD 0) (v.toNat?.getD 0))
+    | ["anon", k] => sm.op (.anon (k.toNat?.getD 0))
     | ["dial", plan] => sm.op (.dial (plan.splitOn ","))
     | ["conn", k, r] => (sm.op (.conn (k.toNat?.getD 0) (r == "ok"))).settle
     | ["adv", dt] => (sm.op (.adv (dt.toNat?.getD 0))).settle
